@@ -1466,7 +1466,7 @@ func largeCase(r *vh.Run, idx int) *caseSpec {
 	for k := rng.Intn(3); k > 0; k-- {
 		f.Msgs = append(f.Msgs, grpcx.Msg{Size: small[rng.Intn(5)], Flag: rng.Intn(2) == 0})
 	}
-	if rng.Intn(3) == 0 {
+	if idx%3 == 0 { // a fixed third of the cases of every run
 		// a message that is small on the wire and inflates to 4-9 MiB (thorough: 17 MiB)
 		// when decompressed: gRPC's default receive limit is 4 MiB but larger limits
 		// are configured routinely, and the statement does not bound message size
